@@ -3,7 +3,7 @@
    constants and tables: Gen/C14.v (regenerated from /repo on every run). *)
 From Coq Require Import Sorting.Sorted Sorting.Permutation.
 From Sdns Require Import Common.Base Gen.C14 C14.Model
-  C14.Proofs_rsa C14.Proofs_b64 C14.Proofs_keytag C14.Proofs_rsamd5 C14.Proofs_canon C14.Proofs_verify C14.Proofs_offset.
+  C14.Proofs_rsa C14.Proofs_b64 C14.Proofs_keytag C14.Proofs_rsamd5 C14.Proofs_canon C14.Proofs_verify C14.Proofs_offset C14.Proofs_walk.
 Open Scope N_scope.
 
 (* (1) Key tag.  For every DNSKEY of every algorithm but RSAMD5 and every key
@@ -147,6 +147,37 @@ Theorem accepted_signature_passed_the_library_preflight :
        \/ verify_ed25519_signature EDV k signed sg = E_OK).
 Proof. exact verify_signature_sound. Qed.
 Print Assumptions accepted_signature_passed_the_library_preflight.
+
+(* (4b) The message walk of VerifyRRSIG.  The verdict is exactly: no answer record outside the
+   signer zone, and every RRset that takes part (answer records, in-zone non-NS authority records;
+   not RRSIGs, not CNAMEs synthesised by an in-zone DNAME) has a covering in-zone RRSIG that
+   verifyOneSig accepts for the whole RRset ... *)
+Theorem verify_rrsig_walk_is_per_rrset_verification :
+  forall (ONE : list rr -> rrsig -> bool -> bool) signer answer ns,
+  walk_verdict ONE signer answer ns = true <->
+  (forall r, In r (walk_answer signer answer ns) -> walk_in_zone signer r = true) /\
+  (forall r, In r (walk_records signer answer ns) ->
+     exists s v, In (MS s v) (answer ++ ns) /\ sig_covers (walk_zone signer) s r = true /\
+                 ONE (walk_group signer answer ns r) s v = true).
+Proof. exact walk_verdict_iff. Qed.
+Print Assumptions verify_rrsig_walk_is_per_rrset_verification.
+
+(* ... so in an accepted message every such record sits in an RRset — all records of its name, type
+   and class — over which a signature of the message, inside its validity period, verifies with this
+   package's verifier under a key of the supplied set bound to that signature *)
+Theorem accepted_message_every_rrset_is_verified : forall H ECP ECV EDV LIBV signer keys answer ns,
+  verify_rrsig H ECP ECV EDV LIBV signer keys answer ns = true ->
+  keys <> [] /\
+  (forall r, In r (walk_answer signer answer ns) -> walk_in_zone signer r = true) /\
+  (forall r, In r (walk_records signer answer ns) ->
+     In r (walk_group signer answer ns r) /\
+     exists s k tag cands,
+       In (MS s true) (answer ++ ns) /\ sig_covers (walk_zone signer) s r = true /\
+       In (tag, cands) keys /\ tag = s_keytag s /\ In k cands /\ usable_signature_candidate s k = true /\
+       signature_matches_rrset s (walk_group signer answer ns r) = true /\
+       verify_signature H ECP ECV EDV k s (walk_group signer answer ns r) = E_OK).
+Proof. exact verified_message_every_rrset_is_signed. Qed.
+Print Assumptions accepted_message_every_rrset_is_verified.
 
 (* (5) ECDSA / Ed25519: acceptance implies the exact key and signature lengths *)
 Theorem ecdsa_accept_implies_exact_lengths : forall H ECP ECV k alg signed sg,
